@@ -9,7 +9,7 @@ Spec functions say *what* (BEP 3 / BEP 52 / bencode / the property statement), n
 import z3
 
 from pyvc.values import *  # noqa: F401,F403
-from pyvc.engine import Unsupported
+from pyvc.engine import Unsupported, ContractError
 from .specs_native import NATIVE  # noqa: F401
 
 
@@ -17,6 +17,8 @@ from .specs_native import NATIVE  # noqa: F401
 def install(reg):
     SF = reg.spec_funcs
     install_dict_specs(reg)
+    install_config_specs(reg)
+    install_value_specs(reg)
     from pyvc import fsmodel
     fsmodel.install(reg)
     fsmodel.install_more(reg)
@@ -166,3 +168,120 @@ def install_dict_specs(reg):
         h = p.deref(v)
         return VBool(p.list_len(h) > 0)
     SF["nonempty_list"] = s_nonempty_list
+
+
+def install_config_specs(reg):
+    from .specs_native import CONFIG_KEYS, CONFIG_LIST_KEYS, CONFIG_RAW_KEYS
+    from pyvc import clitable
+    SF = reg.spec_funcs
+    cache = {}
+
+    def table(p):
+        if "t" not in cache:
+            cache["t"] = clitable.extract(p.repo)
+        return cache["t"]
+
+    def kw_term(p, kt):
+        """String term: dest of --<k> for k among the documented keys (from the real cli.py), '' otherwise"""
+        res = z3.StringVal("")
+        for c in CONFIG_KEYS:
+            e = clitable.flag_dest(table(p), "create_parser", c)
+            if e is None:
+                raise ContractError(f"cli.py has no create flag --{c} (documented configuration key)")
+            res = z3.If(kt == z3.StringVal(c), z3.StringVal(e["dest"]), res)
+        return res
+
+    def s_config_kw(p, k):
+        return VStr(kw_term(p, _str_t(p, k)))
+    SF["config_kw"] = s_config_kw
+
+    def s_config_conv(p, k, v):
+        kt, vt = _str_t(p, k), _str_t(p, v)
+        lower = p.engine.uf("str_lower", S, S)
+        split = p.engine.uf("str_split", S, S, PVSEQ)
+        filt = p.engine.uf("filter_truthy", PVSEQ, PVSEQ)
+        is_list = z3.Or([kt == z3.StringVal(c) for c in CONFIG_LIST_KEYS])
+        is_raw = z3.Or([kt == z3.StringVal(c) for c in CONFIG_RAW_KEYS])
+        lst = PV.PList(filt(split(vt, z3.StringVal("\n"))))
+        boolish = z3.If(lower(vt) == z3.StringVal("true"), PV.PBool(True),
+                        z3.If(lower(vt) == z3.StringVal("false"), PV.PBool(False), PV.PStr(vt)))
+        return VBox(z3.If(is_list, lst, z3.If(is_raw, PV.PStr(vt), boolish)))
+    SF["config_conv"] = s_config_conv
+
+    def s_config_target_before(p, cfg, t, i):
+        """some documented key present in cfg at an index < i maps to keyword t"""
+        keys, has, mp = _dict_parts(p, cfg)
+        tt = _str_t(p, t)
+        it = p.as_int(i)
+        alts = []
+        for c in CONFIG_KEYS:
+            kt = key_of_const(c)
+            idx = p.engine.key_index_facts(p, keys, has, kt)
+            alts.append(z3.And(z3.Select(has, kt), idx < it, kw_term(p, z3.StringVal(c)) == tt))
+        return VBool(z3.Or(alts))
+    SF["config_target_before"] = s_config_target_before
+
+    def s_dict_len(p, d):
+        keys, has, mp = _dict_parts(p, d)
+        return VInt(z3.Length(keys))
+    SF["dict_len"] = s_dict_len
+
+
+def install_value_specs(reg):
+    SF = reg.spec_funcs
+
+    def s_truthy(p, v):
+        return VBool(p.truth(v))
+    SF["truthy"] = s_truthy
+
+    def s_is_int(p, v):
+        if isinstance(v, VBox):
+            return VBool(PV.is_PInt(v.t))
+        return VBool(isinstance(v, VInt))
+    SF["is_int"] = s_is_int
+
+    def s_is_none(p, v):
+        if isinstance(v, VBox):
+            return VBool(PV.is_PNone(v.t))
+        return VBool(isinstance(v, VNone))
+    SF["is_none"] = s_is_none
+
+    def s_as_int(p, v):
+        if isinstance(v, VBox):
+            return VInt(PV.ival(v.t))
+        return VInt(p.as_int(v))
+    SF["as_int"] = s_as_int
+
+    def s_as_str(p, v):
+        return VStr(_str_t(p, v))
+    SF["as_str"] = s_as_str
+
+    def _seq(p, v):
+        if isinstance(v, VBox):
+            return PV.items(v.t)
+        h = p.deref(v)
+        if isinstance(h, HList):
+            return p.list_seq(h)
+        return p.fresh("not_a_list", PVSEQ)
+
+    def s_last(p, v):
+        s = _seq(p, v)
+        return VBox(s[z3.Length(s) - 1])
+    SF["last"] = s_last
+
+    def s_init(p, v):
+        s = _seq(p, v)
+        return VBox(PV.PList(z3.SubSeq(s, 0, z3.Length(s) - 1)))
+    SF["init"] = s_init
+
+    def s_list_len(p, v):
+        return VInt(z3.Length(_seq(p, v)))
+    SF["list_len"] = s_list_len
+
+    def s_memo_func_now(p, path):
+        return VBox(p.engine.uf("memo_func_now", S, PV)(_str_t(p, path)))
+    SF["memo_func_now"] = s_memo_func_now
+
+    def s_basename_abspath(p, path):
+        return VStr(p.engine.uf("basename", S, S)(p.engine.uf("abspath", S, S)(_str_t(p, path))))
+    SF["basename_abspath"] = s_basename_abspath
